@@ -243,7 +243,7 @@ func checkC14(c *Check) {
 			}
 			admitted := derives(cl.Common().Args[0], func(v ssa.Value) bool {
 				_, fld, _, ok := loadedField(v)
-				return ok && (fld == "SeedApps" || fld == "FinalApps")
+				return ok && (fld == "SeedApps" || fld == "FinalApps" || fld == "SeedAppsMap" || fld == "FinalAppsMap")
 			}, nil)
 			if _, isParam := unspill(cl.Common().Args[0]).(*ssa.Parameter); isParam {
 				admitted = true // forwarded by the recursive descent / pass-through walk
